@@ -236,7 +236,7 @@ def check_for_exception(sObjectValue, self, oToi, iIndex, iLine):
 
 
 def does_not_contain_any_alpha_characters(sObjectValue):
-    if sObjectValue.startswith('"'):
+    if sObjectValue.startswith(('"', "'", "\\")):
         return True
     return False
 
